@@ -1,19 +1,22 @@
 """C09 — AUTH: only credentials accepted by checkpassword authenticate (lib/base64.c, qsmtpd/auth.c, auth_chkpw backend)."""
 import base64 as _b64
 import runlib as R
+import session_common as _sc
 
 ID = 'C09'
-COQ_TARGETS = ['Props/Properties_C09.vo']
-PROPS_FILES = ['Props/Properties_C09.v']
+COQ_TARGETS = ['Props/Properties_C09.vo', 'Props/Properties_C09s.vo']
+PROPS_FILES = ['Props/Properties_C09.v', 'Props/Properties_C09s.v']
 THEOREMS = ['C09_b64decode_safe', 'C09_b64_roundtrip', 'C09_b64_roundtrip_exact', 'C09_b64_valid_accepted', 'C09_b64_alphabet',
             'C09_b64_strict_partial', 'C09_b64_strict_refuted',
             'C09_auth_exchange', 'C09_auth_identity', 'C09_auth_refused', 'C09_auth_fd3', 'C09_auth_fd3_fault',
-            'C09_auth_checker', 'C09_auth_strict', 'C09_auth_safe', 'C09_auth_cmd_row']
+            'C09_auth_checker', 'C09_auth_strict', 'C09_auth_safe', 'C09_auth_cmd_row',
+            'C09_session_auth_needs_ehlo', 'C09_session_auth_from_backend', 'C09_session_authenticated_iff_auth_note']
 ENGINES = [
     dict(name='b64', c_sources=['b64_h.c'], extract='Extract/Extract_b64.v', driver='b64_driver.ml',
          accepts=lambda c: c.startswith('d1 ') or c.startswith('e1 ')),
     dict(name='auth', c_sources=['auth_h.c'], extract='Extract/Extract_auth.v', driver='auth_driver.ml',
          glue=('glue.ml', 'glue_z.ml'), accepts=lambda c: c.startswith('a1 ')),
+    _sc.ENGINE,      # whole-program Qsmtpd: when is AUTH acted on at all (order of HELO/EHLO/RSET/AUTH), who counts as authenticated
 ]
 RULE = ('b64: decoder inputs = canonical encodings of random octet strings (0..600 octets, with/without CRLF breaks), single-octet '
         'mutations of them at every position class (NUL, =, CR, LF, 8-bit, non-alphabet), truncations, text after padding, '
@@ -330,6 +333,13 @@ def gen_cases(engine, rng, tier):
     if engine == 'auth':
         n, nreal = (2200, 140) if tier == 'quick' else (60000, 3000)
         return [_auth_case(rng, False).rstrip() for _ in range(n)] + [_auth_case(rng, True).rstrip() for _ in range(nreal)]
+    if engine == 'session':
+        n = 250 if tier == 'quick' else 5000
+        out = []
+        for _ in range(n):
+            cfg = 'relay=%s;ip=%s;databytes=0;qq=ok,ok,ok,ok;auth=%s' % (rng.choice(['none', 'none', 'listed']), rng.choice(['v4', 'v6']), rng.choice(['1', '1', '1', '0']))
+            out.append(_sc.session_gen.case(cfg, _sc.session_gen.auth_session(rng)))
+        return out
     if engine == 'b64':
         if tier == 'quick':
             cs = _dec_cases(rng, 2200) + _enc_cases(rng, 500)
@@ -346,6 +356,8 @@ def gen_cases(engine, rng, tier):
 
 def nontrivial(case, c_out):
     f = case.split()
+    if f[0] == '5e':
+        return 'r235' in c_out.split() or 'r535' in c_out.split()
     if f[0] == 'd1':
         o = c_out.split()
         return (o[0] == 'D0' and len(o) > 1 and o[1] != '-') or (o[0] == 'D1' and len(f[1]) >= 8)
